@@ -20,7 +20,7 @@
 
    Limiter tokens of the per-client limiter and the inline/replay hand-off are compared
    differentially only; see props/C05/NOTES.md. *)
-From Sdns Require Import Common.Base Common.GoList Gen.C05 C05.Model C05.Proofs C05.Proofs_libfuel C05.Ladder C05.Proofs_ladder C05.Edns C05.Proofs_edns C05.Proofs_gen3 C05.Proofs_loops C05.Chase C05.Proofs_chase C05.Proofs_inline C05.Verdict C05.Proofs_verdict C05.Climit C05.Proofs_climit C05.Prepare C05.Proofs_prepare.
+From Sdns Require Import Common.Base Common.GoList Gen.C05 C05.Model C05.Proofs C05.Proofs_libfuel C05.Ladder C05.Proofs_ladder C05.Edns C05.Proofs_edns C05.Proofs_gen3 C05.Proofs_loops C05.Chase C05.Proofs_chase C05.Proofs_inline C05.Verdict C05.Proofs_verdict C05.Climit C05.Proofs_climit C05.Prepare C05.Proofs_prepare C05.Proofs_cleardnssec.
 Open Scope N_scope.
 
 (* the strict admission never accepts what the library rejects, and reads the same facts *)
@@ -347,3 +347,19 @@ Theorem prepare_wire_serve_is_source : forall fuel body h q ts e,
         else 0).
 Proof. exact gen_prepare_wire_serve. Qed.
 Print Assumptions prepare_wire_serve_is_source.
+
+(* dnsutil.ClearDNSSEC TRANSLATED AS A WHOLE (srcgen purefunc; dns.RR as a sum type via iface_cases, filterOut with
+   both its loops, isDNSSEC passed as a function value, the RRSIG-question exception) is Verdict.clear_dnssec - the
+   DNSSEC step the decoded path runs in edns.ResponseWriter.WriteMsg and the byte path runs at admission
+   (CacheEntry.prepareStripped), on which wire_verdict_eq_msg rests.  For every message with a question and records of
+   any types (premise: a record that is not a *dns.RRSIG / *dns.NSEC / *dns.NSEC3 value does not carry one of their type
+   numbers in its header - the library's own invariant): same answer and authority records in the same order, header,
+   question and additional section untouched.  gen_filter_out: the translated filterOut (copy-on-first-drop, two
+   loops over indices) is the list filter, for all lists and predicates. *)
+Theorem clear_dnssec_is_source : forall m q rest,
+  T_Msg_Question m = q :: rest -> Forall rr_typed (T_Msg_Answer m) -> Forall rr_typed (T_Msg_Ns m) ->
+  msg_body (go_ClearDNSSEC m) = clear_dnssec N (T_Question_Qtype q) (msg_body m)
+  /\ T_Msg_Question (go_ClearDNSSEC m) = T_Msg_Question m /\ T_Msg_MsgHdr (go_ClearDNSSEC m) = T_Msg_MsgHdr m
+  /\ T_Msg_Extra (go_ClearDNSSEC m) = T_Msg_Extra m.
+Proof. exact gen_clear_dnssec. Qed.
+Print Assumptions clear_dnssec_is_source.
